@@ -371,7 +371,8 @@ def _suite_owner_rule(ctx, res) -> None:
     idx = ctx.idx
     f = idx.need_func("rope.refactor.similarfinder._ASTMatcher._check_statements")
     owners = sorted({c for c, _ in G.stmt_list_fields()})
-    cfg = CFG(f.node)
+    from . import common as _common
+    cfg = CFG(_common.inlined(idx, f))  # the scan may be a private generator the method iterates over: read in place
     scans = [nd for nd in cfg.nodes if nd.kind == "loop" and isinstance(nd.ast, ast.For) and any(
         isinstance(c, ast.Call) and call_name(c) == "iter_fields" for c in ast.walk(nd.ast.iter))]
     if not scans:
@@ -582,8 +583,10 @@ def _elif_clause_rule(ctx, res) -> None:
                     texts.append(m.node)
             has_field = any(isinstance(x, ast.Constant) and x.value == "orelse" for tt in texts for x in ast.walk(tt)) or \
                 any(isinstance(x, ast.Attribute) and x.attr == "orelse" for tt in texts for x in ast.walk(tt))
+            # (`only = orelse[0] ... isinstance(only, ast.If)`: a local bound once is read through)
+            owner = lambda tt: tt if isinstance(tt, (ast.FunctionDef, ast.AsyncFunctionDef)) else node
             has_kind = any(isinstance(x, ast.Call) and call_name(x) == "isinstance" and len(x.args) == 2 and (dotted(x.args[1]) or "").split(".")[-1] == "If"
-                           and isinstance(x.args[0], ast.Subscript) for tt in texts for x in ast.walk(tt))
+                           and isinstance(common._subst_single_locals(owner(tt), x.args[0]), ast.Subscript) for tt in texts for x in ast.walk(tt))
             # `else:` + a nested `if` has the same tree as `elif`; only the position tells them apart (the elif's If starts in
             # the column of the outer if): without that comparison the statements of an else block that consists of one `if`
             # are never offered to the matcher, and instances there are not found
